@@ -373,4 +373,22 @@ theorem runCalls_DI {F : Nat → Bool} {cfg : Cfg} {old : Bytes} (calls : List C
       refine ih _ _ (runCall_DI (.block o b) h ⟨hwf.1, hwf.2.1⟩) ?_
       simpa [place] using hwf.2.2
 
+/-- Sequential `archive_write_data` calls lay out the concatenation of their bodies. -/
+theorem foldl_place_data (size : Nat) (bs : List Bytes) :
+    ∀ (img : Bytes) (pos : Nat), img.length = pos → pos ≤ size →
+      ((bs.map Call.data).foldl (place size) (img, pos)).1 = img ++ (bs.flatten).take (size - pos) := by
+  induction bs with
+  | nil => intro img pos _ _; simp
+  | cons b bs ih =>
+    intro img pos hl hp
+    simp only [List.map_cons, List.foldl_cons, place, List.flatten_cons]
+    have hd : (b.take (size - pos)).length ≤ size - pos := by simp; omega
+    rw [ih _ _ (by simp [hl]) (by omega)]
+    rw [padTo_of_le (by omega), List.append_assoc]
+    congr 1
+    rw [List.take_append]
+    congr 2
+    simp only [List.length_take]
+    omega
+
 end LA.SafeWrite
